@@ -440,7 +440,8 @@ def SCHEMA_GENERATORS(src, attempt, problems):
             ('GenMaxSize.v', lambda: gen_max_size(src, attempt)),
             ('GenSchemaImpls.v', lambda: gen_schema_impls(src, attempt, problems)),
             ('GenSerMethods.v', lambda: __import__('translate_methods').gen_ser_methods(src, attempt)),
-            ('GenDeMethods.v', lambda: __import__('translate_methods').gen_de_methods(src, attempt))]
+            ('GenDeMethods.v', lambda: __import__('translate_methods').gen_de_methods(src, attempt)),
+            ('GenAccumulator.v', lambda: __import__('translate_methods').gen_accumulator(src, attempt))]
 
 
 # ----------------------------------------------------------------------------------------
